@@ -42,18 +42,32 @@ inductive StoreOp where
   | wr (p : String) (o : Obj)
 deriving DecidableEq, Repr
 
-/-- planned writes with their `Exists` probe (gcsca.writeIfAllowed probes, writeManifest does not) -/
-def planned (cfg : Cfg) (m : Manifest) (mu : Mut) (order : List (String × Cert)) : List (Bool × String × Obj) :=
-  ((uploadWrites cfg (applyPrimaries mu m) order).1 ++ rootWrites cfg mu).map (fun w => (true, w)) ++
-    (if manifestChanged mu m order then
-      [(false, manifestName, .manifest (uploadWrites cfg (applyPrimaries mu m) order).2)] else [])
-
-/-- the storage log of one Finalize: a probe that finds the object while overwriting is not allowed
-    ends it (go: writeIfAllowed returns AlreadyExists; keep_going off). -/
-def runPlan (ow : Bool) : Store → List (Bool × String × Obj) → List StoreOp
+/-- the uploads of one Finalize as (claimed, object, content); claimed — go: the refusal at the head of
+    gcsca.upload: the manifest, as it stands in memory when the certificate is visited, records the
+    certificate's target object for another key version (`heldByOther`) -/
+def uploadPlan (cfg : Cfg) : Manifest → List (String × Cert) → List (Bool × String × Obj)
   | _, [] => []
-  | st, (probe, p, o) :: t =>
-    if probe && (lookup st p).isSome && !ow then [.ex p]
+  | m, (k, c) :: t =>
+    (heldByOther m (uploadName cfg m k c) k, uploadName cfg m k c, .der c) ::
+      uploadPlan cfg (withEntry m k (uploadName cfg m k c)) t
+
+/-- planned writes with their `Exists` probe (gcsca.writeIfAllowed probes, writeManifest does not) and, for
+    certificate uploads, whether gcsca.upload refuses the object because another key version holds it:
+    (probe, claimed, object, content) -/
+def planned (cfg : Cfg) (m : Manifest) (mu : Mut) (order : List (String × Cert)) : List (Bool × Bool × String × Obj) :=
+  (uploadPlan cfg (applyPrimaries mu m) order).map (fun w => (true, w)) ++
+    (rootWrites cfg mu).map (fun w => (true, false, w)) ++
+    (if manifestChanged mu m order then
+      [(false, false, manifestName, .manifest (uploadWrites cfg (applyPrimaries mu m) order).2)] else [])
+
+/-- the storage log of one Finalize: an upload whose object another key version holds ends it before any
+    storage call; a probe that finds the object while overwriting is not allowed ends it after the probe
+    (go: upload / writeIfAllowed return AlreadyExists; keep_going off). -/
+def runPlan (ow : Bool) : Store → List (Bool × Bool × String × Obj) → List StoreOp
+  | _, [] => []
+  | st, (probe, claimed, p, o) :: t =>
+    if claimed then []
+    else if probe && (lookup st p).isSome && !ow then [.ex p]
     else (if probe then [.ex p] else []) ++ .wr p o :: runPlan ow ((p, o) :: st) t
 
 def finalizeLog (cfg : Cfg) (st : Store) (m : Manifest) (mu : Mut) (order : List (String × Cert)) : List StoreOp :=
